@@ -1,6 +1,8 @@
 """C12 — saving and loading a configuration graph loses nothing (Engine G)."""
 from __future__ import annotations
 
+import os
+
 import json
 
 from .c01 import ROOTS, SEEDS, hash_seeds
@@ -91,7 +93,7 @@ def real_params_route(i):
     from . import graphs as Gr
     case = REAL_CASES[i]
     problems = []
-    d = Path(tempfile.mkdtemp(prefix="c12r", dir="/dev/shm"))
+    d = Path(tempfile.mkdtemp(prefix="c12r", dir=os.environ.get("VERIF_SCRATCH", "/dev/shm")))
     try:
         with Gr.quiet():
             with experiment(d, "real", run_mode=RunMode.GENERATE_ONLY, port=-1) as xp:
